@@ -2,7 +2,7 @@ INIT Init
 NEXT Next
 CONSTANT NCells = 3
 CONSTANT Bug = "none"
-CONSTANT Profiles = {"alias", "create", "window"}
+CONSTANT Profiles = {"fixed", "alias", "create", "window"}
 CONSTANT Deep = FALSE
 INVARIANT InvBufferLaw
 INVARIANT Export
